@@ -39,7 +39,8 @@ class IdealContext:
     unwrap_iov: returns the recorded plaintext iff data and signature - and the sign_only buffers - are exactly a sealed message; raises otherwise.
     step/complete: scripted tokens (C15)."""
 
-    def __init__(self, c, sig_size=16, tokens=None, final_empty=False):
+    def __init__(self, c, sig_size=16, tokens=None, final_empty=False, tag=""):
+        self.tag = tag  # prefix of the fresh symbols (a second context in one harness)
         self.c, self.sig_size = c, sig_size
         self.sealed = []  # records: dict(signed=[...], body=plain, sealed=..., sig=...)
         self.unwrap_calls = 0
@@ -75,8 +76,8 @@ class IdealContext:
         self.n += 1
         data = [d for t, d in bufs if t == BT.data]
         assert len(data) == 1
-        sealed = self.c.blob_of_len(f"sealed{self.n}", V.blen(data[0]))
-        sig = self.c.bytes(f"wsig{self.n}", self.sig_size)
+        sealed = self.c.blob_of_len(f"{self.tag}sealed{self.n}", V.blen(data[0]))
+        sig = self.c.bytes(f"{self.tag}wsig{self.n}", self.sig_size)
         self.wrap_calls.append(dict(bufs=bufs, encrypt=encrypt, sealed=sealed, sig=sig))
         out = []
         for t, d in bufs:
@@ -111,14 +112,20 @@ class IdealContext:
 
 def provider(ctx, c=None, extra_stubs=()):
     """the repository's AuthenticationProvider on top of the ideal context: its own __init__ runs with spnego.client replaced, so that
-    attributes a later version adds are initialised the way the code initialises them.  Installs the harness's stubs (once per run)."""
+    attributes a later version adds are initialised the way the code initialises them.  Installs the harness's stubs (once per run); further
+    providers in the same run (a second connection) reuse the installed stub, which hands out the contexts in the order they were queued."""
     import spnego
 
     c = c or ctx.c
+    queue = c.__dict__.setdefault("_secctx_queue", None)
+    if queue is None:
+        queue = c.__dict__["_secctx_queue"] = []
 
-    def client(*a, **k):
-        ctx.client_args = (a, k)
-        return ctx
+        def client(*a, **k):
+            nxt = queue.pop(0)
+            nxt.client_args = (a, k)
+            return nxt
 
-    c.stubs([(spnego.client, client)] + list(extra_stubs))
+        c.stubs([(spnego.client, client)] + list(extra_stubs))
+    queue.append(ctx)
     return c.call(_auth.AuthenticationProvider, "user", "password", "dc01.domain.test", "negotiate")
